@@ -873,7 +873,7 @@ func (g *c15Gen) program(d int) string {
 	g.vars = nil
 	var ss []string
 	nv := []int{0, 0, 0, 1, 2, 3}[g.r.Intn(6)]
-	names := []string{"X", "Y", "Names", "X", "Document1"}
+	names := []string{"X", "Y", "Names", "X", "Document1", "Document2", "Documents", "DocumentA", "_", "Length1"}
 	for i := 0; i < nv; i++ {
 		name := names[g.r.Intn(len(names))]
 		if g.r.Chance(1, 6) {
@@ -884,6 +884,34 @@ func (g *c15Gen) program(d int) string {
 	}
 	ss = append(ss, g.stmt(d))
 	return strings.Join(ss, "; ")
+}
+
+var c15varNames = []string{"Document1", "Document2", "Document3", "Document", "Documents", "DocumentA", "DocumentB", "document1", "Doc", "X", "_", "_1", "X9", "is", "are",
+	"Individuals", "Name", "Tag", "nil", "Lengths", "first", "Only1"}
+
+// N = the name, M = another name
+var c15cycleTemplates = []string{"N is N; N", "N are N | Length; N", "N is M; M is N; N", "N is M; M is N; .Individuals | Only(N)", "N is .Individuals | Only(N); N",
+	"N is {a: N}; N", "N is Combine(N); N", "N is 1 = N; N", "N is N; 1", "N is .Individuals | {a: M}; M is N | Length; N", "N is First(N); .Individuals | N",
+	"N is .Individuals; N | Length", "N is M; M is .Individuals | Length; N", "N is Only(N); N", "N is NodesWithTagPath(N); .Individuals | N"}
+
+var c15bigSources = []string{".Individuals", ".Families", ".Nodes", ".Individuals | .Name", ".Individuals | .Pointer", ".Individuals | .Names"}
+
+// conditions for Only(…): most of them panic inside package reflect (recovered by Evaluate into an
+// error), some return an error, some are fine
+var c15illTyped = []string{".Nodes | .Tag", "Combine(1)", `First("-1")`, `Last("-1")`, ".Names | .GivenName", "Combine | ?", `"a" | NodesWithTagPath("X")`, "NodesWithTagPath",
+	"Combine(.Names, .Pointer)", ".Names | {}", ".Foo", "Nope", "First", "1 = 1", `.Pointer = "I64"`, ".Name | .GivenName = \"G64\"", ".Nodes | .Nodes | .Nodes", "Only(Combine(1))"}
+
+// c15bigDoc: n individuals (NAME, SEX), n families, so that .Individuals, .Families and .Nodes all
+// have at least n elements.
+func c15bigDoc(n int) []*TNode {
+	f := []*TNode{T("HEAD", "", "")}
+	for i := 1; i <= n; i++ {
+		f = append(f, T("INDI", "", fmt.Sprintf("I%d", i), T("NAME", fmt.Sprintf("G%d /S%d/", i, i%7), ""), T("SEX", []string{"M", "F"}[i%2], "")))
+	}
+	for i := 1; i <= n; i++ {
+		f = append(f, T("FAM", "", fmt.Sprintf("F%d", i), T("HUSB", fmt.Sprintf("@I%d@", i), ""), T("WIFE", fmt.Sprintf("@I%d@", i%n+1), "")))
+	}
+	return append(f, T("TRLR", "", ""))
 }
 
 var c15relationQueries = []string{".Individuals | .Spouses", ".Individuals | .Families", ".Individuals | .Parents", ".Individuals | .Children", ".Individuals | .SpouseChildren",
@@ -1034,11 +1062,12 @@ func init() {
 		r := c.R
 		pool := c15docPool(c, r.Fork("docs"), c.N(18, 60), 6)
 		var jobs []c15Job
+		nSmall := len(pool) // the large documents appended below are used by the large-input queries only
 		pickDocs := func(rr *Rand) []int {
 			if rr.Chance(1, 5) {
-				return []int{rr.Intn(len(pool)), rr.Intn(len(pool))}
+				return []int{rr.Intn(nSmall), rr.Intn(nSmall)}
 			}
-			return []int{rr.Intn(len(pool))}
+			return []int{rr.Intn(nSmall)}
 		}
 		add := func(src, query string, docs []int) {
 			jobs = append(jobs, c15Job{query, docs, "c"})
@@ -1058,6 +1087,47 @@ func init() {
 			c15enumerate(alpha, n, func(s string) { add("exhaustive-small-alphabet", s, []int{3}) })
 		}
 		_ = rs
+		// large inputs (list lengths straddling 63/64, 127/128, 255/256: thresholds at which an
+		// implementation might switch to chunked / concurrent evaluation) with conditions and stages
+		// that are ill-typed — an error, never a crash, whatever the size
+		sizes := []int{63, 64, 65, 100, 128, 257}
+		if !c.Quick() {
+			sizes = []int{1, 2, 31, 32, 33, 63, 64, 65, 100, 127, 128, 129, 200, 255, 256, 257, 513, 1024}
+		}
+		if os.Getenv("C15_NO_LARGE") != "" { // debugging aid: time the run without the large inputs
+			sizes = nil
+		}
+		for _, n := range sizes {
+			if d, ok := c15mkDoc(c15bigDoc(n)); ok {
+				pool = append(pool, d)
+				id := len(pool) - 1
+				for _, src := range c15bigSources {
+					for _, cond := range c15illTyped {
+						add("large-input", src+" | Only("+cond+")", []int{id})
+					}
+					for _, st := range []string{"{a: Combine(1)}", "{a: First(\"-1\")}", ".Nodes | .Tag", "Combine(1) = 1", ".Foo", "First(70) | Only(.Nodes | .Tag)", "Last(64) | Only(Combine(1))", "?", "Length"} {
+						add("large-input", src+" | "+st, []int{id})
+					}
+				}
+				add("large-input", "P is Combine(1); .Individuals | Only(P)", []int{id})
+				add("large-input", "P is .Nodes | .Tag; Q is P; .Nodes | Only(Q)", []int{id})
+				add("large-input", ".Individuals | Only(Document1 | .Individuals | Only(Combine(1)))", []int{id})
+			}
+		}
+		// variable names that look reserved (DocumentN and its prefix, function / accessor / keyword
+		// names, `_`, digits) in direct and indirect self-reference, inside and outside Only(…) and
+		// objects, with one and with two documents
+		for _, name := range c15varNames {
+			other := c15varNames[(len(name)*7+3)%len(c15varNames)]
+			if other == name {
+				other = "Zz"
+			}
+			for _, tmpl := range c15cycleTemplates {
+				query := strings.ReplaceAll(strings.ReplaceAll(tmpl, "N", name), "M", other)
+				add("cycle-sweep", query, []int{3})
+				add("cycle-sweep", query, []int{3, 2})
+			}
+		}
 		// 2. grammar-generated programs over all accessors
 		g := &c15Gen{r: r.Fork("grammar"), accs: c15reflectAccessors()}
 		for i := c.N(40000, 400000); i > 0; i-- {
@@ -1076,7 +1146,7 @@ func init() {
 		}
 		// relations and role nodes on every document (faulty references give nil entries), so that
 		// such results reach all five formatters
-		for d := range pool {
+		for d := 0; d < nSmall; d++ {
 			for _, query := range c15relationQueries {
 				add("relation-sweep", query, []int{d})
 			}
@@ -1109,7 +1179,9 @@ func init() {
 			c.Tie("qparse "+hexs(j.Query), c15parseObs(j.Query))
 		}
 
+		t0 := time.Now()
 		obs := c15runJobs(pool, jobs, 20*time.Second)
+		c.Notes = append(c.Notes, fmt.Sprintf("child-process evaluation of %d jobs: %.1fs", len(jobs), time.Since(t0).Seconds()))
 		for i, j := range jobs {
 			o := obs[i]
 			c.Eval()
